@@ -88,6 +88,13 @@ def spacingRule (k : Kind) (prev prevReal next : Option Kind) (cur : Nat) (nextS
   | .tIdentifier => (none, some 1)
   | _ => (some (min cur 1), nextSp.map (min · 1))
 
+/-- the `spaces_before` the next token has when its own iteration starts: what this token's
+    `spaces_after` wrote (never onto the end-of-file token), else its original value -/
+def nextCur (after : Option Nat) (k' : Kind) (sp' : Nat) : Nat :=
+  match after with
+  | some a => if k' == .tEof then sp' else a
+  | none => sp'
+
 /-- streaming form of the loop of `TokenSpacing::format` (see DESIGN §2.2): returns the final
     `spaces_before` of every token from this one on. -/
 def spacingGo (prev prevReal : Option Kind) (cur : Nat) : List (Kind × Nat) → List Nat
@@ -95,16 +102,12 @@ def spacingGo (prev prevReal : Option Kind) (cur : Nat) : List (Kind × Nat) →
   | (k, _) :: rest =>
     let next : Option Kind := rest.head?.map (·.1)
     let nextSp : Option Nat := rest.head?.map (·.2)
-    let (before, after) := spacingRule k prev prevReal next cur nextSp
-    let final := before.getD cur
+    let rule := spacingRule k prev prevReal next cur nextSp
+    let final := rule.1.getD cur
     let prevReal' := if k.isCommentOrDirective then prevReal else some k
     match rest with
     | [] => [final]
-    | (k', sp') :: _ =>
-      let cur' := match after with
-        | some a => if k' == .tEof then sp' else a
-        | none => sp'
-      final :: spacingGo (some k) prevReal' cur' rest
+    | (k', sp') :: _ => final :: spacingGo (some k) prevReal' (nextCur rule.2 k' sp') rest
 
 /-- final `spaces_before` of every token after `TokenSpacing::format` -/
 def spacingResult (items : List (Kind × Nat)) : List Nat :=
